@@ -44,7 +44,8 @@ Inductive event :=
 | EvExit (id t : nat) (called caught : bool) (cnt : nat) (swallow : bool) (exc : nat)
       (* CancelScope.__exit__ returned: cancel_called(), cancelled_caught(), task.cancelling(), return value,
          class of the exception it was given (0 none, 1 CancelledError, 2 TimeoutError, 3 other) *)
-| EvCatch (id t : nat) (exc : nat).              (* an except clause of the program caught exc *)
+| EvCatch (id t : nat) (exc : nat)               (* an except clause of the program caught exc *)
+| EvExt (t : nat).                               (* the controller's task.cancel() returned True at time t *)
 
 Definition exn_code (e : exn) : nat := match e with ECancel _ => 1 | ETimeout => 2 | EAssert => 3 end.
 Definition oexn_code (e : option exn) : nat := match e with None => 0 | Some e => exn_code e end.
@@ -126,58 +127,73 @@ Record state := mkState {
   g_leak : nat;
   g_floor : nat;
   g_abort : bool;
-  fixF : bool }.
+  fixF : bool;
+  fallbackF : bool;
+  g_late : bool;
+  g_shbroken : bool;
+  g_owed : bool;
+  g_lost : bool }.
 
 Definition set_time (st : state) (v : nat) : state :=
-  {| time := v; ready := ready st; heap := heap st; nexth := nexth st; futs := futs st; scopes := scopes st; sstack := sstack st; t_waiter := t_waiter st; t_must := t_must st; t_msg := t_msg st; t_cnt := t_cnt st; delayed := delayed st; md := md st; frames := frames st; todo := todo st; iter := iter st; spin := spin st; spinK := spinK st; ctrl := ctrl st; trace := trace st; g_ext := g_ext st; g_leak := g_leak st; g_floor := g_floor st; g_abort := g_abort st; fixF := fixF st |}.
+  {| time := v; ready := ready st; heap := heap st; nexth := nexth st; futs := futs st; scopes := scopes st; sstack := sstack st; t_waiter := t_waiter st; t_must := t_must st; t_msg := t_msg st; t_cnt := t_cnt st; delayed := delayed st; md := md st; frames := frames st; todo := todo st; iter := iter st; spin := spin st; spinK := spinK st; ctrl := ctrl st; trace := trace st; g_ext := g_ext st; g_leak := g_leak st; g_floor := g_floor st; g_abort := g_abort st; fixF := fixF st; fallbackF := fallbackF st; g_late := g_late st; g_shbroken := g_shbroken st; g_owed := g_owed st; g_lost := g_lost st |}.
 Definition set_ready (st : state) (v : list handle) : state :=
-  {| time := time st; ready := v; heap := heap st; nexth := nexth st; futs := futs st; scopes := scopes st; sstack := sstack st; t_waiter := t_waiter st; t_must := t_must st; t_msg := t_msg st; t_cnt := t_cnt st; delayed := delayed st; md := md st; frames := frames st; todo := todo st; iter := iter st; spin := spin st; spinK := spinK st; ctrl := ctrl st; trace := trace st; g_ext := g_ext st; g_leak := g_leak st; g_floor := g_floor st; g_abort := g_abort st; fixF := fixF st |}.
+  {| time := time st; ready := v; heap := heap st; nexth := nexth st; futs := futs st; scopes := scopes st; sstack := sstack st; t_waiter := t_waiter st; t_must := t_must st; t_msg := t_msg st; t_cnt := t_cnt st; delayed := delayed st; md := md st; frames := frames st; todo := todo st; iter := iter st; spin := spin st; spinK := spinK st; ctrl := ctrl st; trace := trace st; g_ext := g_ext st; g_leak := g_leak st; g_floor := g_floor st; g_abort := g_abort st; fixF := fixF st; fallbackF := fallbackF st; g_late := g_late st; g_shbroken := g_shbroken st; g_owed := g_owed st; g_lost := g_lost st |}.
 Definition set_heap (st : state) (v : list timer) : state :=
-  {| time := time st; ready := ready st; heap := v; nexth := nexth st; futs := futs st; scopes := scopes st; sstack := sstack st; t_waiter := t_waiter st; t_must := t_must st; t_msg := t_msg st; t_cnt := t_cnt st; delayed := delayed st; md := md st; frames := frames st; todo := todo st; iter := iter st; spin := spin st; spinK := spinK st; ctrl := ctrl st; trace := trace st; g_ext := g_ext st; g_leak := g_leak st; g_floor := g_floor st; g_abort := g_abort st; fixF := fixF st |}.
+  {| time := time st; ready := ready st; heap := v; nexth := nexth st; futs := futs st; scopes := scopes st; sstack := sstack st; t_waiter := t_waiter st; t_must := t_must st; t_msg := t_msg st; t_cnt := t_cnt st; delayed := delayed st; md := md st; frames := frames st; todo := todo st; iter := iter st; spin := spin st; spinK := spinK st; ctrl := ctrl st; trace := trace st; g_ext := g_ext st; g_leak := g_leak st; g_floor := g_floor st; g_abort := g_abort st; fixF := fixF st; fallbackF := fallbackF st; g_late := g_late st; g_shbroken := g_shbroken st; g_owed := g_owed st; g_lost := g_lost st |}.
 Definition set_nexth (st : state) (v : nat) : state :=
-  {| time := time st; ready := ready st; heap := heap st; nexth := v; futs := futs st; scopes := scopes st; sstack := sstack st; t_waiter := t_waiter st; t_must := t_must st; t_msg := t_msg st; t_cnt := t_cnt st; delayed := delayed st; md := md st; frames := frames st; todo := todo st; iter := iter st; spin := spin st; spinK := spinK st; ctrl := ctrl st; trace := trace st; g_ext := g_ext st; g_leak := g_leak st; g_floor := g_floor st; g_abort := g_abort st; fixF := fixF st |}.
+  {| time := time st; ready := ready st; heap := heap st; nexth := v; futs := futs st; scopes := scopes st; sstack := sstack st; t_waiter := t_waiter st; t_must := t_must st; t_msg := t_msg st; t_cnt := t_cnt st; delayed := delayed st; md := md st; frames := frames st; todo := todo st; iter := iter st; spin := spin st; spinK := spinK st; ctrl := ctrl st; trace := trace st; g_ext := g_ext st; g_leak := g_leak st; g_floor := g_floor st; g_abort := g_abort st; fixF := fixF st; fallbackF := fallbackF st; g_late := g_late st; g_shbroken := g_shbroken st; g_owed := g_owed st; g_lost := g_lost st |}.
 Definition set_futs (st : state) (v : list fut) : state :=
-  {| time := time st; ready := ready st; heap := heap st; nexth := nexth st; futs := v; scopes := scopes st; sstack := sstack st; t_waiter := t_waiter st; t_must := t_must st; t_msg := t_msg st; t_cnt := t_cnt st; delayed := delayed st; md := md st; frames := frames st; todo := todo st; iter := iter st; spin := spin st; spinK := spinK st; ctrl := ctrl st; trace := trace st; g_ext := g_ext st; g_leak := g_leak st; g_floor := g_floor st; g_abort := g_abort st; fixF := fixF st |}.
+  {| time := time st; ready := ready st; heap := heap st; nexth := nexth st; futs := v; scopes := scopes st; sstack := sstack st; t_waiter := t_waiter st; t_must := t_must st; t_msg := t_msg st; t_cnt := t_cnt st; delayed := delayed st; md := md st; frames := frames st; todo := todo st; iter := iter st; spin := spin st; spinK := spinK st; ctrl := ctrl st; trace := trace st; g_ext := g_ext st; g_leak := g_leak st; g_floor := g_floor st; g_abort := g_abort st; fixF := fixF st; fallbackF := fallbackF st; g_late := g_late st; g_shbroken := g_shbroken st; g_owed := g_owed st; g_lost := g_lost st |}.
 Definition set_scopes (st : state) (v : list scope) : state :=
-  {| time := time st; ready := ready st; heap := heap st; nexth := nexth st; futs := futs st; scopes := v; sstack := sstack st; t_waiter := t_waiter st; t_must := t_must st; t_msg := t_msg st; t_cnt := t_cnt st; delayed := delayed st; md := md st; frames := frames st; todo := todo st; iter := iter st; spin := spin st; spinK := spinK st; ctrl := ctrl st; trace := trace st; g_ext := g_ext st; g_leak := g_leak st; g_floor := g_floor st; g_abort := g_abort st; fixF := fixF st |}.
+  {| time := time st; ready := ready st; heap := heap st; nexth := nexth st; futs := futs st; scopes := v; sstack := sstack st; t_waiter := t_waiter st; t_must := t_must st; t_msg := t_msg st; t_cnt := t_cnt st; delayed := delayed st; md := md st; frames := frames st; todo := todo st; iter := iter st; spin := spin st; spinK := spinK st; ctrl := ctrl st; trace := trace st; g_ext := g_ext st; g_leak := g_leak st; g_floor := g_floor st; g_abort := g_abort st; fixF := fixF st; fallbackF := fallbackF st; g_late := g_late st; g_shbroken := g_shbroken st; g_owed := g_owed st; g_lost := g_lost st |}.
 Definition set_sstack (st : state) (v : list nat) : state :=
-  {| time := time st; ready := ready st; heap := heap st; nexth := nexth st; futs := futs st; scopes := scopes st; sstack := v; t_waiter := t_waiter st; t_must := t_must st; t_msg := t_msg st; t_cnt := t_cnt st; delayed := delayed st; md := md st; frames := frames st; todo := todo st; iter := iter st; spin := spin st; spinK := spinK st; ctrl := ctrl st; trace := trace st; g_ext := g_ext st; g_leak := g_leak st; g_floor := g_floor st; g_abort := g_abort st; fixF := fixF st |}.
+  {| time := time st; ready := ready st; heap := heap st; nexth := nexth st; futs := futs st; scopes := scopes st; sstack := v; t_waiter := t_waiter st; t_must := t_must st; t_msg := t_msg st; t_cnt := t_cnt st; delayed := delayed st; md := md st; frames := frames st; todo := todo st; iter := iter st; spin := spin st; spinK := spinK st; ctrl := ctrl st; trace := trace st; g_ext := g_ext st; g_leak := g_leak st; g_floor := g_floor st; g_abort := g_abort st; fixF := fixF st; fallbackF := fallbackF st; g_late := g_late st; g_shbroken := g_shbroken st; g_owed := g_owed st; g_lost := g_lost st |}.
 Definition set_t_waiter (st : state) (v : option nat) : state :=
-  {| time := time st; ready := ready st; heap := heap st; nexth := nexth st; futs := futs st; scopes := scopes st; sstack := sstack st; t_waiter := v; t_must := t_must st; t_msg := t_msg st; t_cnt := t_cnt st; delayed := delayed st; md := md st; frames := frames st; todo := todo st; iter := iter st; spin := spin st; spinK := spinK st; ctrl := ctrl st; trace := trace st; g_ext := g_ext st; g_leak := g_leak st; g_floor := g_floor st; g_abort := g_abort st; fixF := fixF st |}.
+  {| time := time st; ready := ready st; heap := heap st; nexth := nexth st; futs := futs st; scopes := scopes st; sstack := sstack st; t_waiter := v; t_must := t_must st; t_msg := t_msg st; t_cnt := t_cnt st; delayed := delayed st; md := md st; frames := frames st; todo := todo st; iter := iter st; spin := spin st; spinK := spinK st; ctrl := ctrl st; trace := trace st; g_ext := g_ext st; g_leak := g_leak st; g_floor := g_floor st; g_abort := g_abort st; fixF := fixF st; fallbackF := fallbackF st; g_late := g_late st; g_shbroken := g_shbroken st; g_owed := g_owed st; g_lost := g_lost st |}.
 Definition set_t_must (st : state) (v : bool) : state :=
-  {| time := time st; ready := ready st; heap := heap st; nexth := nexth st; futs := futs st; scopes := scopes st; sstack := sstack st; t_waiter := t_waiter st; t_must := v; t_msg := t_msg st; t_cnt := t_cnt st; delayed := delayed st; md := md st; frames := frames st; todo := todo st; iter := iter st; spin := spin st; spinK := spinK st; ctrl := ctrl st; trace := trace st; g_ext := g_ext st; g_leak := g_leak st; g_floor := g_floor st; g_abort := g_abort st; fixF := fixF st |}.
+  {| time := time st; ready := ready st; heap := heap st; nexth := nexth st; futs := futs st; scopes := scopes st; sstack := sstack st; t_waiter := t_waiter st; t_must := v; t_msg := t_msg st; t_cnt := t_cnt st; delayed := delayed st; md := md st; frames := frames st; todo := todo st; iter := iter st; spin := spin st; spinK := spinK st; ctrl := ctrl st; trace := trace st; g_ext := g_ext st; g_leak := g_leak st; g_floor := g_floor st; g_abort := g_abort st; fixF := fixF st; fallbackF := fallbackF st; g_late := g_late st; g_shbroken := g_shbroken st; g_owed := g_owed st; g_lost := g_lost st |}.
 Definition set_t_msg (st : state) (v : msg) : state :=
-  {| time := time st; ready := ready st; heap := heap st; nexth := nexth st; futs := futs st; scopes := scopes st; sstack := sstack st; t_waiter := t_waiter st; t_must := t_must st; t_msg := v; t_cnt := t_cnt st; delayed := delayed st; md := md st; frames := frames st; todo := todo st; iter := iter st; spin := spin st; spinK := spinK st; ctrl := ctrl st; trace := trace st; g_ext := g_ext st; g_leak := g_leak st; g_floor := g_floor st; g_abort := g_abort st; fixF := fixF st |}.
+  {| time := time st; ready := ready st; heap := heap st; nexth := nexth st; futs := futs st; scopes := scopes st; sstack := sstack st; t_waiter := t_waiter st; t_must := t_must st; t_msg := v; t_cnt := t_cnt st; delayed := delayed st; md := md st; frames := frames st; todo := todo st; iter := iter st; spin := spin st; spinK := spinK st; ctrl := ctrl st; trace := trace st; g_ext := g_ext st; g_leak := g_leak st; g_floor := g_floor st; g_abort := g_abort st; fixF := fixF st; fallbackF := fallbackF st; g_late := g_late st; g_shbroken := g_shbroken st; g_owed := g_owed st; g_lost := g_lost st |}.
 Definition set_t_cnt (st : state) (v : nat) : state :=
-  {| time := time st; ready := ready st; heap := heap st; nexth := nexth st; futs := futs st; scopes := scopes st; sstack := sstack st; t_waiter := t_waiter st; t_must := t_must st; t_msg := t_msg st; t_cnt := v; delayed := delayed st; md := md st; frames := frames st; todo := todo st; iter := iter st; spin := spin st; spinK := spinK st; ctrl := ctrl st; trace := trace st; g_ext := g_ext st; g_leak := g_leak st; g_floor := g_floor st; g_abort := g_abort st; fixF := fixF st |}.
+  {| time := time st; ready := ready st; heap := heap st; nexth := nexth st; futs := futs st; scopes := scopes st; sstack := sstack st; t_waiter := t_waiter st; t_must := t_must st; t_msg := t_msg st; t_cnt := v; delayed := delayed st; md := md st; frames := frames st; todo := todo st; iter := iter st; spin := spin st; spinK := spinK st; ctrl := ctrl st; trace := trace st; g_ext := g_ext st; g_leak := g_leak st; g_floor := g_floor st; g_abort := g_abort st; fixF := fixF st; fallbackF := fallbackF st; g_late := g_late st; g_shbroken := g_shbroken st; g_owed := g_owed st; g_lost := g_lost st |}.
 Definition set_delayed (st : state) (v : option (nat * msg)) : state :=
-  {| time := time st; ready := ready st; heap := heap st; nexth := nexth st; futs := futs st; scopes := scopes st; sstack := sstack st; t_waiter := t_waiter st; t_must := t_must st; t_msg := t_msg st; t_cnt := t_cnt st; delayed := v; md := md st; frames := frames st; todo := todo st; iter := iter st; spin := spin st; spinK := spinK st; ctrl := ctrl st; trace := trace st; g_ext := g_ext st; g_leak := g_leak st; g_floor := g_floor st; g_abort := g_abort st; fixF := fixF st |}.
+  {| time := time st; ready := ready st; heap := heap st; nexth := nexth st; futs := futs st; scopes := scopes st; sstack := sstack st; t_waiter := t_waiter st; t_must := t_must st; t_msg := t_msg st; t_cnt := t_cnt st; delayed := v; md := md st; frames := frames st; todo := todo st; iter := iter st; spin := spin st; spinK := spinK st; ctrl := ctrl st; trace := trace st; g_ext := g_ext st; g_leak := g_leak st; g_floor := g_floor st; g_abort := g_abort st; fixF := fixF st; fallbackF := fallbackF st; g_late := g_late st; g_shbroken := g_shbroken st; g_owed := g_owed st; g_lost := g_lost st |}.
 Definition set_md (st : state) (v : mode) : state :=
-  {| time := time st; ready := ready st; heap := heap st; nexth := nexth st; futs := futs st; scopes := scopes st; sstack := sstack st; t_waiter := t_waiter st; t_must := t_must st; t_msg := t_msg st; t_cnt := t_cnt st; delayed := delayed st; md := v; frames := frames st; todo := todo st; iter := iter st; spin := spin st; spinK := spinK st; ctrl := ctrl st; trace := trace st; g_ext := g_ext st; g_leak := g_leak st; g_floor := g_floor st; g_abort := g_abort st; fixF := fixF st |}.
+  {| time := time st; ready := ready st; heap := heap st; nexth := nexth st; futs := futs st; scopes := scopes st; sstack := sstack st; t_waiter := t_waiter st; t_must := t_must st; t_msg := t_msg st; t_cnt := t_cnt st; delayed := delayed st; md := v; frames := frames st; todo := todo st; iter := iter st; spin := spin st; spinK := spinK st; ctrl := ctrl st; trace := trace st; g_ext := g_ext st; g_leak := g_leak st; g_floor := g_floor st; g_abort := g_abort st; fixF := fixF st; fallbackF := fallbackF st; g_late := g_late st; g_shbroken := g_shbroken st; g_owed := g_owed st; g_lost := g_lost st |}.
 Definition set_frames (st : state) (v : list frame) : state :=
-  {| time := time st; ready := ready st; heap := heap st; nexth := nexth st; futs := futs st; scopes := scopes st; sstack := sstack st; t_waiter := t_waiter st; t_must := t_must st; t_msg := t_msg st; t_cnt := t_cnt st; delayed := delayed st; md := md st; frames := v; todo := todo st; iter := iter st; spin := spin st; spinK := spinK st; ctrl := ctrl st; trace := trace st; g_ext := g_ext st; g_leak := g_leak st; g_floor := g_floor st; g_abort := g_abort st; fixF := fixF st |}.
+  {| time := time st; ready := ready st; heap := heap st; nexth := nexth st; futs := futs st; scopes := scopes st; sstack := sstack st; t_waiter := t_waiter st; t_must := t_must st; t_msg := t_msg st; t_cnt := t_cnt st; delayed := delayed st; md := md st; frames := v; todo := todo st; iter := iter st; spin := spin st; spinK := spinK st; ctrl := ctrl st; trace := trace st; g_ext := g_ext st; g_leak := g_leak st; g_floor := g_floor st; g_abort := g_abort st; fixF := fixF st; fallbackF := fallbackF st; g_late := g_late st; g_shbroken := g_shbroken st; g_owed := g_owed st; g_lost := g_lost st |}.
 Definition set_todo (st : state) (v : nat) : state :=
-  {| time := time st; ready := ready st; heap := heap st; nexth := nexth st; futs := futs st; scopes := scopes st; sstack := sstack st; t_waiter := t_waiter st; t_must := t_must st; t_msg := t_msg st; t_cnt := t_cnt st; delayed := delayed st; md := md st; frames := frames st; todo := v; iter := iter st; spin := spin st; spinK := spinK st; ctrl := ctrl st; trace := trace st; g_ext := g_ext st; g_leak := g_leak st; g_floor := g_floor st; g_abort := g_abort st; fixF := fixF st |}.
+  {| time := time st; ready := ready st; heap := heap st; nexth := nexth st; futs := futs st; scopes := scopes st; sstack := sstack st; t_waiter := t_waiter st; t_must := t_must st; t_msg := t_msg st; t_cnt := t_cnt st; delayed := delayed st; md := md st; frames := frames st; todo := v; iter := iter st; spin := spin st; spinK := spinK st; ctrl := ctrl st; trace := trace st; g_ext := g_ext st; g_leak := g_leak st; g_floor := g_floor st; g_abort := g_abort st; fixF := fixF st; fallbackF := fallbackF st; g_late := g_late st; g_shbroken := g_shbroken st; g_owed := g_owed st; g_lost := g_lost st |}.
 Definition set_iter (st : state) (v : nat) : state :=
-  {| time := time st; ready := ready st; heap := heap st; nexth := nexth st; futs := futs st; scopes := scopes st; sstack := sstack st; t_waiter := t_waiter st; t_must := t_must st; t_msg := t_msg st; t_cnt := t_cnt st; delayed := delayed st; md := md st; frames := frames st; todo := todo st; iter := v; spin := spin st; spinK := spinK st; ctrl := ctrl st; trace := trace st; g_ext := g_ext st; g_leak := g_leak st; g_floor := g_floor st; g_abort := g_abort st; fixF := fixF st |}.
+  {| time := time st; ready := ready st; heap := heap st; nexth := nexth st; futs := futs st; scopes := scopes st; sstack := sstack st; t_waiter := t_waiter st; t_must := t_must st; t_msg := t_msg st; t_cnt := t_cnt st; delayed := delayed st; md := md st; frames := frames st; todo := todo st; iter := v; spin := spin st; spinK := spinK st; ctrl := ctrl st; trace := trace st; g_ext := g_ext st; g_leak := g_leak st; g_floor := g_floor st; g_abort := g_abort st; fixF := fixF st; fallbackF := fallbackF st; g_late := g_late st; g_shbroken := g_shbroken st; g_owed := g_owed st; g_lost := g_lost st |}.
 Definition set_spin (st : state) (v : nat) : state :=
-  {| time := time st; ready := ready st; heap := heap st; nexth := nexth st; futs := futs st; scopes := scopes st; sstack := sstack st; t_waiter := t_waiter st; t_must := t_must st; t_msg := t_msg st; t_cnt := t_cnt st; delayed := delayed st; md := md st; frames := frames st; todo := todo st; iter := iter st; spin := v; spinK := spinK st; ctrl := ctrl st; trace := trace st; g_ext := g_ext st; g_leak := g_leak st; g_floor := g_floor st; g_abort := g_abort st; fixF := fixF st |}.
+  {| time := time st; ready := ready st; heap := heap st; nexth := nexth st; futs := futs st; scopes := scopes st; sstack := sstack st; t_waiter := t_waiter st; t_must := t_must st; t_msg := t_msg st; t_cnt := t_cnt st; delayed := delayed st; md := md st; frames := frames st; todo := todo st; iter := iter st; spin := v; spinK := spinK st; ctrl := ctrl st; trace := trace st; g_ext := g_ext st; g_leak := g_leak st; g_floor := g_floor st; g_abort := g_abort st; fixF := fixF st; fallbackF := fallbackF st; g_late := g_late st; g_shbroken := g_shbroken st; g_owed := g_owed st; g_lost := g_lost st |}.
 Definition set_spinK (st : state) (v : nat) : state :=
-  {| time := time st; ready := ready st; heap := heap st; nexth := nexth st; futs := futs st; scopes := scopes st; sstack := sstack st; t_waiter := t_waiter st; t_must := t_must st; t_msg := t_msg st; t_cnt := t_cnt st; delayed := delayed st; md := md st; frames := frames st; todo := todo st; iter := iter st; spin := spin st; spinK := v; ctrl := ctrl st; trace := trace st; g_ext := g_ext st; g_leak := g_leak st; g_floor := g_floor st; g_abort := g_abort st; fixF := fixF st |}.
+  {| time := time st; ready := ready st; heap := heap st; nexth := nexth st; futs := futs st; scopes := scopes st; sstack := sstack st; t_waiter := t_waiter st; t_must := t_must st; t_msg := t_msg st; t_cnt := t_cnt st; delayed := delayed st; md := md st; frames := frames st; todo := todo st; iter := iter st; spin := spin st; spinK := v; ctrl := ctrl st; trace := trace st; g_ext := g_ext st; g_leak := g_leak st; g_floor := g_floor st; g_abort := g_abort st; fixF := fixF st; fallbackF := fallbackF st; g_late := g_late st; g_shbroken := g_shbroken st; g_owed := g_owed st; g_lost := g_lost st |}.
 Definition set_ctrl (st : state) (v : list (nat * bool)) : state :=
-  {| time := time st; ready := ready st; heap := heap st; nexth := nexth st; futs := futs st; scopes := scopes st; sstack := sstack st; t_waiter := t_waiter st; t_must := t_must st; t_msg := t_msg st; t_cnt := t_cnt st; delayed := delayed st; md := md st; frames := frames st; todo := todo st; iter := iter st; spin := spin st; spinK := spinK st; ctrl := v; trace := trace st; g_ext := g_ext st; g_leak := g_leak st; g_floor := g_floor st; g_abort := g_abort st; fixF := fixF st |}.
+  {| time := time st; ready := ready st; heap := heap st; nexth := nexth st; futs := futs st; scopes := scopes st; sstack := sstack st; t_waiter := t_waiter st; t_must := t_must st; t_msg := t_msg st; t_cnt := t_cnt st; delayed := delayed st; md := md st; frames := frames st; todo := todo st; iter := iter st; spin := spin st; spinK := spinK st; ctrl := v; trace := trace st; g_ext := g_ext st; g_leak := g_leak st; g_floor := g_floor st; g_abort := g_abort st; fixF := fixF st; fallbackF := fallbackF st; g_late := g_late st; g_shbroken := g_shbroken st; g_owed := g_owed st; g_lost := g_lost st |}.
 Definition set_trace (st : state) (v : list event) : state :=
-  {| time := time st; ready := ready st; heap := heap st; nexth := nexth st; futs := futs st; scopes := scopes st; sstack := sstack st; t_waiter := t_waiter st; t_must := t_must st; t_msg := t_msg st; t_cnt := t_cnt st; delayed := delayed st; md := md st; frames := frames st; todo := todo st; iter := iter st; spin := spin st; spinK := spinK st; ctrl := ctrl st; trace := v; g_ext := g_ext st; g_leak := g_leak st; g_floor := g_floor st; g_abort := g_abort st; fixF := fixF st |}.
+  {| time := time st; ready := ready st; heap := heap st; nexth := nexth st; futs := futs st; scopes := scopes st; sstack := sstack st; t_waiter := t_waiter st; t_must := t_must st; t_msg := t_msg st; t_cnt := t_cnt st; delayed := delayed st; md := md st; frames := frames st; todo := todo st; iter := iter st; spin := spin st; spinK := spinK st; ctrl := ctrl st; trace := v; g_ext := g_ext st; g_leak := g_leak st; g_floor := g_floor st; g_abort := g_abort st; fixF := fixF st; fallbackF := fallbackF st; g_late := g_late st; g_shbroken := g_shbroken st; g_owed := g_owed st; g_lost := g_lost st |}.
 Definition set_g_ext (st : state) (v : nat) : state :=
-  {| time := time st; ready := ready st; heap := heap st; nexth := nexth st; futs := futs st; scopes := scopes st; sstack := sstack st; t_waiter := t_waiter st; t_must := t_must st; t_msg := t_msg st; t_cnt := t_cnt st; delayed := delayed st; md := md st; frames := frames st; todo := todo st; iter := iter st; spin := spin st; spinK := spinK st; ctrl := ctrl st; trace := trace st; g_ext := v; g_leak := g_leak st; g_floor := g_floor st; g_abort := g_abort st; fixF := fixF st |}.
+  {| time := time st; ready := ready st; heap := heap st; nexth := nexth st; futs := futs st; scopes := scopes st; sstack := sstack st; t_waiter := t_waiter st; t_must := t_must st; t_msg := t_msg st; t_cnt := t_cnt st; delayed := delayed st; md := md st; frames := frames st; todo := todo st; iter := iter st; spin := spin st; spinK := spinK st; ctrl := ctrl st; trace := trace st; g_ext := v; g_leak := g_leak st; g_floor := g_floor st; g_abort := g_abort st; fixF := fixF st; fallbackF := fallbackF st; g_late := g_late st; g_shbroken := g_shbroken st; g_owed := g_owed st; g_lost := g_lost st |}.
 Definition set_g_leak (st : state) (v : nat) : state :=
-  {| time := time st; ready := ready st; heap := heap st; nexth := nexth st; futs := futs st; scopes := scopes st; sstack := sstack st; t_waiter := t_waiter st; t_must := t_must st; t_msg := t_msg st; t_cnt := t_cnt st; delayed := delayed st; md := md st; frames := frames st; todo := todo st; iter := iter st; spin := spin st; spinK := spinK st; ctrl := ctrl st; trace := trace st; g_ext := g_ext st; g_leak := v; g_floor := g_floor st; g_abort := g_abort st; fixF := fixF st |}.
+  {| time := time st; ready := ready st; heap := heap st; nexth := nexth st; futs := futs st; scopes := scopes st; sstack := sstack st; t_waiter := t_waiter st; t_must := t_must st; t_msg := t_msg st; t_cnt := t_cnt st; delayed := delayed st; md := md st; frames := frames st; todo := todo st; iter := iter st; spin := spin st; spinK := spinK st; ctrl := ctrl st; trace := trace st; g_ext := g_ext st; g_leak := v; g_floor := g_floor st; g_abort := g_abort st; fixF := fixF st; fallbackF := fallbackF st; g_late := g_late st; g_shbroken := g_shbroken st; g_owed := g_owed st; g_lost := g_lost st |}.
 Definition set_g_floor (st : state) (v : nat) : state :=
-  {| time := time st; ready := ready st; heap := heap st; nexth := nexth st; futs := futs st; scopes := scopes st; sstack := sstack st; t_waiter := t_waiter st; t_must := t_must st; t_msg := t_msg st; t_cnt := t_cnt st; delayed := delayed st; md := md st; frames := frames st; todo := todo st; iter := iter st; spin := spin st; spinK := spinK st; ctrl := ctrl st; trace := trace st; g_ext := g_ext st; g_leak := g_leak st; g_floor := v; g_abort := g_abort st; fixF := fixF st |}.
+  {| time := time st; ready := ready st; heap := heap st; nexth := nexth st; futs := futs st; scopes := scopes st; sstack := sstack st; t_waiter := t_waiter st; t_must := t_must st; t_msg := t_msg st; t_cnt := t_cnt st; delayed := delayed st; md := md st; frames := frames st; todo := todo st; iter := iter st; spin := spin st; spinK := spinK st; ctrl := ctrl st; trace := trace st; g_ext := g_ext st; g_leak := g_leak st; g_floor := v; g_abort := g_abort st; fixF := fixF st; fallbackF := fallbackF st; g_late := g_late st; g_shbroken := g_shbroken st; g_owed := g_owed st; g_lost := g_lost st |}.
 Definition set_g_abort (st : state) (v : bool) : state :=
-  {| time := time st; ready := ready st; heap := heap st; nexth := nexth st; futs := futs st; scopes := scopes st; sstack := sstack st; t_waiter := t_waiter st; t_must := t_must st; t_msg := t_msg st; t_cnt := t_cnt st; delayed := delayed st; md := md st; frames := frames st; todo := todo st; iter := iter st; spin := spin st; spinK := spinK st; ctrl := ctrl st; trace := trace st; g_ext := g_ext st; g_leak := g_leak st; g_floor := g_floor st; g_abort := v; fixF := fixF st |}.
+  {| time := time st; ready := ready st; heap := heap st; nexth := nexth st; futs := futs st; scopes := scopes st; sstack := sstack st; t_waiter := t_waiter st; t_must := t_must st; t_msg := t_msg st; t_cnt := t_cnt st; delayed := delayed st; md := md st; frames := frames st; todo := todo st; iter := iter st; spin := spin st; spinK := spinK st; ctrl := ctrl st; trace := trace st; g_ext := g_ext st; g_leak := g_leak st; g_floor := g_floor st; g_abort := v; fixF := fixF st; fallbackF := fallbackF st; g_late := g_late st; g_shbroken := g_shbroken st; g_owed := g_owed st; g_lost := g_lost st |}.
 Definition set_fixF (st : state) (v : bool) : state :=
-  {| time := time st; ready := ready st; heap := heap st; nexth := nexth st; futs := futs st; scopes := scopes st; sstack := sstack st; t_waiter := t_waiter st; t_must := t_must st; t_msg := t_msg st; t_cnt := t_cnt st; delayed := delayed st; md := md st; frames := frames st; todo := todo st; iter := iter st; spin := spin st; spinK := spinK st; ctrl := ctrl st; trace := trace st; g_ext := g_ext st; g_leak := g_leak st; g_floor := g_floor st; g_abort := g_abort st; fixF := v |}.
+  {| time := time st; ready := ready st; heap := heap st; nexth := nexth st; futs := futs st; scopes := scopes st; sstack := sstack st; t_waiter := t_waiter st; t_must := t_must st; t_msg := t_msg st; t_cnt := t_cnt st; delayed := delayed st; md := md st; frames := frames st; todo := todo st; iter := iter st; spin := spin st; spinK := spinK st; ctrl := ctrl st; trace := trace st; g_ext := g_ext st; g_leak := g_leak st; g_floor := g_floor st; g_abort := g_abort st; fixF := v; fallbackF := fallbackF st; g_late := g_late st; g_shbroken := g_shbroken st; g_owed := g_owed st; g_lost := g_lost st |}.
+Definition set_fallbackF (st : state) (v : bool) : state :=
+  {| time := time st; ready := ready st; heap := heap st; nexth := nexth st; futs := futs st; scopes := scopes st; sstack := sstack st; t_waiter := t_waiter st; t_must := t_must st; t_msg := t_msg st; t_cnt := t_cnt st; delayed := delayed st; md := md st; frames := frames st; todo := todo st; iter := iter st; spin := spin st; spinK := spinK st; ctrl := ctrl st; trace := trace st; g_ext := g_ext st; g_leak := g_leak st; g_floor := g_floor st; g_abort := g_abort st; fixF := fixF st; fallbackF := v; g_late := g_late st; g_shbroken := g_shbroken st; g_owed := g_owed st; g_lost := g_lost st |}.
+Definition set_g_late (st : state) (v : bool) : state :=
+  {| time := time st; ready := ready st; heap := heap st; nexth := nexth st; futs := futs st; scopes := scopes st; sstack := sstack st; t_waiter := t_waiter st; t_must := t_must st; t_msg := t_msg st; t_cnt := t_cnt st; delayed := delayed st; md := md st; frames := frames st; todo := todo st; iter := iter st; spin := spin st; spinK := spinK st; ctrl := ctrl st; trace := trace st; g_ext := g_ext st; g_leak := g_leak st; g_floor := g_floor st; g_abort := g_abort st; fixF := fixF st; fallbackF := fallbackF st; g_late := v; g_shbroken := g_shbroken st; g_owed := g_owed st; g_lost := g_lost st |}.
+Definition set_g_shbroken (st : state) (v : bool) : state :=
+  {| time := time st; ready := ready st; heap := heap st; nexth := nexth st; futs := futs st; scopes := scopes st; sstack := sstack st; t_waiter := t_waiter st; t_must := t_must st; t_msg := t_msg st; t_cnt := t_cnt st; delayed := delayed st; md := md st; frames := frames st; todo := todo st; iter := iter st; spin := spin st; spinK := spinK st; ctrl := ctrl st; trace := trace st; g_ext := g_ext st; g_leak := g_leak st; g_floor := g_floor st; g_abort := g_abort st; fixF := fixF st; fallbackF := fallbackF st; g_late := g_late st; g_shbroken := v; g_owed := g_owed st; g_lost := g_lost st |}.
+Definition set_g_owed (st : state) (v : bool) : state :=
+  {| time := time st; ready := ready st; heap := heap st; nexth := nexth st; futs := futs st; scopes := scopes st; sstack := sstack st; t_waiter := t_waiter st; t_must := t_must st; t_msg := t_msg st; t_cnt := t_cnt st; delayed := delayed st; md := md st; frames := frames st; todo := todo st; iter := iter st; spin := spin st; spinK := spinK st; ctrl := ctrl st; trace := trace st; g_ext := g_ext st; g_leak := g_leak st; g_floor := g_floor st; g_abort := g_abort st; fixF := fixF st; fallbackF := fallbackF st; g_late := g_late st; g_shbroken := g_shbroken st; g_owed := v; g_lost := g_lost st |}.
+Definition set_g_lost (st : state) (v : bool) : state :=
+  {| time := time st; ready := ready st; heap := heap st; nexth := nexth st; futs := futs st; scopes := scopes st; sstack := sstack st; t_waiter := t_waiter st; t_must := t_must st; t_msg := t_msg st; t_cnt := t_cnt st; delayed := delayed st; md := md st; frames := frames st; todo := todo st; iter := iter st; spin := spin st; spinK := spinK st; ctrl := ctrl st; trace := trace st; g_ext := g_ext st; g_leak := g_leak st; g_floor := g_floor st; g_abort := g_abort st; fixF := fixF st; fallbackF := fallbackF st; g_late := g_late st; g_shbroken := g_shbroken st; g_owed := g_owed st; g_lost := v |}.
 
 (* ================= generic helpers ================= *)
 Fixpoint upd {A} (l : list A) (i : nat) (x : A) : list A :=
@@ -409,7 +425,8 @@ Definition exit_called (st : state) (k : nat) (s : scope) (exc : option exn) : s
   match exc with
   | Some (ECancel m) =>
       let '(calls, cnt, floor, hit) := uncancel_loop (s_calls s) (t_cnt st) (s_hostc s) (g_floor st) in
-      (set_g_floor (set_t_cnt st cnt) floor, calls, if hit then true else msg_eqb (Some k) m)
+      (set_g_floor (set_t_cnt st cnt) floor, calls,
+       if hit then true else fallbackF st && msg_eqb (Some k) m)   (* `return self.__cancellation_id() in exc.args` *)
   | Some _ => (st, s_calls s, false)
   | None => (st, s_calls s, s_caught s)
   end.
@@ -481,6 +498,7 @@ Definition cancel_msg_of (v : option exn) (last : option msg) : option msg :=
 Definition shield_resume (st : state) (id : nat) (w : shwait) (last : option msg) (v : option exn)
                          (outer : list frame) : state * list frame * resume :=
   let last := cancel_msg_of v last in
+  let st := match v with Some (ECancel None) => set_g_owed st true | _ => st end in   (* instrumentation *)
   let proceed (st : state) :=
     match last with
     | Some m =>
@@ -642,12 +660,31 @@ Definition wake (st : state) (w : wait) (v : option exn) : state :=
   | WSleep id _ h, None => set_md (emit (cancel_handle st h) (EvDone id (time st))) (MRun CRet)
   | WSleep _ _ h, Some e => set_md (cancel_handle st h) (MRun (CRaise e))
   | WShYield id, Some (ECancel m) =>
+      let st := match m with None => set_g_owed st true | Some _ => st end in           (* instrumentation *)
       let '(st, ok) := reschedule_delayed st m in
       if ok then set_md (emit st (EvDone id (time st))) (MRun CRet)
       else set_md (set_g_abort st true) (MRun (CRaise EAssert))
   | WShYield id, None => set_md (emit st (EvDone id (time st))) (MRun CRet)
   | WShYield _, Some e => set_md st (MRun (CRaise e))
   end.
+
+(* Instrumentation only (nothing reads these flags): what kind of resumption reaches the innermost await point.
+     g_shbroken: an exception was delivered to a coroutine driven by cancel_shielded_await;
+     g_late:     an await point outside every shield resumed normally although an enclosing scope had cancel_called;
+     g_owed:     a controller cancellation was swallowed by a shield / shielded yield and not yet delivered;
+     g_lost:     an await point outside every shield resumed normally while such a cancellation was owed. *)
+Definition is_shield (f : frame) : bool := match f with FShield _ _ _ _ => true | _ => false end.
+Definition observe_resumption (st : state) (k : list frame) (v : option exn) : state :=
+  let shielded := existsb is_shield k in
+  let shy := match k with FWait (WShYield _) :: _ => true | _ => false end in
+  if shielded then (match v with Some _ => set_g_shbroken st true | None => st end)
+  else if shy then st
+  else match v with
+       | None =>
+           let st := match first_called st (sstack st) with Some _ => set_g_late st true | None => st end in
+           if g_owed st then set_g_lost st true else st
+       | Some _ => set_g_owed st false
+       end.
 
 (* Task.__step(exc) / Task.__wakeup *)
 Definition task_step (st : state) (v : option exn) : state :=
@@ -663,6 +700,7 @@ Definition task_step (st : state) (v : option exn) : state :=
   | RYield y => set_md (task_yield st y) MLoop
   | RAbort => set_md st (MRun (CRaise EAssert))
   | RDeliver v' =>
+      let st := observe_resumption st k v' in
       match k with
       | FWait w :: k' => wake (set_frames st k') w v'
       | FStart p :: k' =>
@@ -700,7 +738,7 @@ Definition run_handle (st : state) (k : hkind) : state :=
   | HDeliver s => deliver st s
   | HDelayedCancel m => if task_done st then st else task_cancel (task_uncancel st) m
   | HDelayedPop => set_delayed st None
-  | HExt => if task_done st then st else task_cancel (set_g_ext st (S (g_ext st))) None
+  | HExt => if task_done st then st else task_cancel (emit (set_g_ext st (S (g_ext st))) (EvExt (time st))) None
   end.
 
 (* ================= BaseEventLoop._run_once ================= *)
@@ -809,9 +847,9 @@ Fixpoint push_timers (ts : list nat) (st : state) : state :=
   end.
 
 (* loop.create_task(program()); controller timers call_at(t, task.cancel) registered right after, in order *)
-Definition init (fx : bool) (p : prog) (timers : list nat) (turns : list (nat * bool)) (k : nat) : state :=
+Definition init (fx fb : bool) (p : prog) (timers : list nat) (turns : list (nat * bool)) (k : nat) : state :=
   let st := mkState 0 [mkH 0 HStep false] [] 1 [] [] [] None false None 0 None MLoop [FStart p] 0 0 0 k turns []
-                    0 0 0 false fx in
+                    0 0 0 false fx fb false false false false in
   push_timers timers st.
 
 (* ================= observation functions used in the statements of the theorems ================= *)
